@@ -128,8 +128,9 @@ type Contracts struct {
 	IfaceGh     map[string]GhostDecl // ghost fields on interface values (by field name)
 	Files       []string
 	GlobalLocks map[string]*LockDecl // package-level mutex variable (full name) -> declaration
-	Assumes     []string             // free-text assumptions declared in spec files
-	SMT         []string             // raw SMT prelude chunks
+	LoadErrors  []loadError
+	Assumes     []string // free-text assumptions declared in spec files
+	SMT         []string // raw SMT prelude chunks
 }
 
 func newContracts() *Contracts {
@@ -249,8 +250,16 @@ func (c *Contracts) loadFile(path, pkg string, trusted bool) error {
 		switch rc.kw {
 		case "func":
 			key := normalizeFnKey(qualifyKey(strings.TrimSpace(rc.text), pkg))
-			if _, dup := c.Funcs[key]; dup {
-				return fmt.Errorf("%s:%d: duplicate contract for %s", path, rc.line, key)
+			if prev, dup := c.Funcs[key]; dup {
+				if !trusted {
+					return fmt.Errorf("%s:%d: duplicate contract for %s", path, rc.line, key)
+				}
+				// duplicate assumed contract: the first one (files in alphabetical order) wins; the clauses of this
+				// block are parsed into a scratch contract and dropped
+				c.LoadErrors = append(c.LoadErrors, loadError{Pkg: "libspec", Err: fmt.Sprintf("%s:%d: duplicate assumed contract for %s ignored (first: %s:%d)", path, rc.line, key, prev.File, prev.Line)})
+				curF = &FuncContract{Key: key, File: path, Line: rc.line, Loops: map[int]*LoopSpec{}, Trusted: trusted, Opts: map[string]string{}}
+				curT = nil
+				continue
 			}
 			curF = &FuncContract{Key: key, File: path, Line: rc.line, Loops: map[int]*LoopSpec{}, Trusted: trusted, Opts: map[string]string{}}
 			c.Funcs[key] = curF
@@ -677,8 +686,15 @@ func (c *Contracts) loadLibspecs(dir string) error {
 	sort.Strings(files)
 	for _, f := range files {
 		if err := c.loadFile(f, "", true); err != nil {
-			return err
+			// an assumed-contract file that does not parse: its remaining entries are missing; functions that
+			// need them fail their own obligations
+			c.LoadErrors = append(c.LoadErrors, loadError{Pkg: "libspec", Err: err.Error()})
 		}
 	}
 	return nil
+}
+
+type loadError struct {
+	Pkg string
+	Err string
 }
